@@ -10,12 +10,13 @@ import uuid
 from harness import core, fmt_vhdx
 from harness.core import Z, zpairs
 from harness.main import Finding, Suite
-from harness.props import c05, c06
+from harness.props import c01, c02, c05, c06
 from harness.readers import call, judge_read, outcome_of
 
 PROPERTY = "C07"
 PROPS_FILE = "Props/C07.v"
-MODEL_FILES = ["Model/Chain.v", "Model/Vdi.v", "Model/Hds.v", "Model/Vhdx.v", "Model/OpenParent.v"]
+MODEL_FILES = ["Model/Chain.v", "Model/Vdi.v", "Model/Hds.v", "Model/Vhdx.v", "Model/OpenParent.v", "Model/Vmdk.v",
+               "Model/Qcow2.v"]
 META = {
     "category": "proof",
     "text": "Coq theorems: reading a chain of layers of ANY depth yields for every byte the topmost layer that holds it, else "
@@ -562,4 +563,436 @@ class OpenLayouts(Suite):
                 "layout": f"rel={int(case['rel_exists'])},abs={int(case['abs_exists'])}"}
 
 
-SUITES = {"vdi_chain": VdiChain(), "hds_chain": HdsChain(), "vhdx_chain": VhdxChain(), "open_layouts": OpenLayouts()}
+# ----------------------------------------------------------------------------- VMDK delta extents over parents (on disk)
+class VmdkDelta(Suite):
+    """A flat base, then 1..2 delta descriptors each split over 1..3 hosted sparse extents with parentCID/parentFileNameHint.
+    Three-way: implementation vs the C02 extent model (SParent segments resolved with the lower layers) vs the generator's
+    intent (topmost layer that holds the sector)."""
+    name = "vmdk_delta"
+    shard = 4
+    per_case_timeout = 60.0
+    preamble = c02.VmdkSuite.preamble
+
+    def generate(self, rng, tier):
+        n = 160 if tier == "thorough" else 14
+        out = []
+        while len(out) < n:
+            depth = rng.randint(1, 2)
+            layers = []
+            total = None
+            ok = True
+            for d in range(depth):
+                nx = rng.randint(1, 3)
+                exts = []
+                for _ in range(nx):
+                    for _t in range(200):
+                        sc = c02.gen_sparse(rng, "quick", "hosted")
+                        if not sc["huge"] and sc["fsize"] < 2_000_000 and not (sc["flags"] & c02.F_COMPRESSED) \
+                                and sc["capacity"] <= 4000:
+                            break
+                    else:
+                        ok = False
+                    sc["reqs"] = []
+                    exts.append(sc)
+                cap = sum(e["capacity"] for e in exts)
+                if total is None:
+                    total = cap
+                elif cap != total:
+                    # make the last extent absorb the difference by regenerating is expensive: pad/trim with a flat tail
+                    ok = cap <= total
+                    if ok and cap < total:
+                        exts.append({"kind": "flatpad", "capacity": total - cap, "salt": rng.randrange(1 << 30)})
+                layers.append(exts)
+            if not ok or total is None or total > 12000:
+                continue
+            base_salt = rng.randrange(1 << 30)
+            reqs = []
+            bounds = []
+            for exts in layers:
+                acc = 0
+                for e in exts:
+                    acc += e["capacity"]
+                    bounds.append(acc)
+            for _ in range(6):
+                b = rng.pick(bounds)
+                s0 = max(0, min(total - 1, b - rng.randint(0, 30))) if rng.chance(0.7) else rng.randrange(0, total)
+                cnt = max(1, min(total - s0, rng.randint(1, 80)))
+                reqs.append(["sectors", s0, cnt] if rng.chance(0.6) else ["bytes", s0 * 512 + rng.randrange(512),
+                                                                            cnt * 512 - rng.randrange(512)])
+            out.append({"layers": layers, "total": total, "base_salt": base_salt, "reqs": reqs})
+        return out
+
+    # -- files
+    @staticmethod
+    def _ext_file(e):
+        if e["kind"] == "flatpad":
+            return core.SparseFile(e["capacity"] * 512, {}, salt=e["salt"]), {}
+        return c02.build_image(e)
+
+    def _write(self, case, d):
+        total = case["total"]
+        base = core.SparseFile(total * 512, {}, salt=case["base_salt"])
+        with open(os.path.join(d, "base-flat.vmdk"), "wb") as w:
+            w.write(base.content(0, base.size))
+        with open(os.path.join(d, "L9.vmdk"), "w") as w:
+            w.write("# Disk DescriptorFile\nversion=1\nCID=11111111\nparentCID=ffffffff\ncreateType=\"vmfs\"\n\n"
+                    f"RW {total} FLAT \"base-flat.vmdk\" 0\n")
+        n = len(case["layers"])
+        for li, exts in enumerate(case["layers"]):
+            lines = ["# Disk DescriptorFile", "version=1", f"CID=2222{li:04x}", "parentCID=11111111",
+                     'createType="twoGbMaxExtentSparse"',
+                     f'parentFileNameHint="{("L%d.vmdk" % (li + 1)) if li + 1 < n else "L9.vmdk"}"', ""]
+            for xi, e in enumerate(exts):
+                fn = f"L{li}-s{xi:03d}.vmdk"
+                fh, _ = self._ext_file(e)
+                with open(os.path.join(d, fn), "wb") as w:
+                    w.write(fh.content(0, fh.size))
+                lines.append(f'RW {e["capacity"]} {"FLAT" if e["kind"] == "flatpad" else "SPARSE"} "{fn}"' +
+                             (" 0" if e["kind"] == "flatpad" else ""))
+            with open(os.path.join(d, f"L{li}.vmdk"), "w") as w:
+                w.write("\n".join(lines) + "\n")
+
+    def impl(self, case):
+        from pathlib import Path
+        from dissect.hypervisor.disk.vmdk import VMDK
+        d = tempfile.mkdtemp(prefix="verif_c07v_")
+        try:
+            self._write(case, d)
+            out = {"open": None, "reqs": []}
+            try:
+                v = VMDK(Path(d) / "L0.vmdk")
+            except Exception as e:  # noqa: BLE001
+                out["open"] = {"outcome": "exc", "exc": type(e).__name__, "msg": str(e)[:300]}
+                return out
+            out["size"] = int(v.size)
+            for kind, a, b in case["reqs"]:
+                if kind == "sectors":
+                    out["reqs"].append(call(v.read_sectors, a, b))
+                else:
+                    def f(a=a, b=b):
+                        v.seek(a)
+                        return v.read(b)
+                    out["reqs"].append(call(f))
+            return out
+        finally:
+            shutil.rmtree(d, ignore_errors=True)
+
+    # -- intent
+    def _layer_sector(self, case, li, s):
+        """('data', bytes) | ('zero',) | ('absent',) for absolute sector s in layer li"""
+        acc = 0
+        for e in case["layers"][li]:
+            if s < acc + e["capacity"]:
+                rel = s - acc
+                if e["kind"] == "flatpad":
+                    return ("data", core.SparseFile(e["capacity"] * 512, {}, salt=e["salt"]).content(rel * 512, 512))
+                gs = e["grain_size"]
+                st = {g: (x, p) for g, x, p in e["states"]}
+                g, o = divmod(rel, gs)
+                state, phys = st.get(g, ("absent", 0))
+                if state == "data":
+                    fh, _ = c02.build_image(e)
+                    return ("data", fh.content((phys + o) * 512, 512))
+                return (state,)
+            acc += e["capacity"]
+        return ("absent",)
+
+    def intent(self, case, s0, cnt, from_layer=0):
+        out = []
+        base = core.SparseFile(case["total"] * 512, {}, salt=case["base_salt"])
+        for s in range(s0, s0 + cnt):
+            for li in range(from_layer, len(case["layers"])):
+                r = self._layer_sector(case, li, s)
+                if r[0] == "data":
+                    out.append(r[1])
+                    break
+                if r[0] == "zero":
+                    out.append(b"\x00" * 512)
+                    break
+            else:
+                out.append(base.content(s * 512, 512))
+        return b"".join(out)
+
+    def coq_term(self, case):
+        exts = case["layers"][0]
+        binds, xs = [], []
+        for i, e in enumerate(exts):
+            if e["kind"] == "flatpad":
+                xs.append(f"XRaw {Z(e['capacity'] * 512)} 0")
+                continue
+            fh, _ = c02.build_image(e)
+            binds.append(f"do sp{i} <- open_sparse ({c02.file_term(e, fh)});")
+            xs.append(f"XSparse ({c02.file_term(e, fh)}) sp{i} true")
+        items = []
+        for kind, a, b in case["reqs"]:
+            if kind == "sectors":
+                items.append(f"vmdk_read_sectors v {Z(a)} {Z(b)}")
+            else:
+                b = min(b, case["total"] * 512 - a)
+                s0 = a // 512
+                cnt = (a + b + 511) // 512 - s0
+                items.append(f"vmdk_read_sectors v {Z(s0)} {Z(cnt)}")
+        return (" ".join(binds) + f" let v := mk_vmdk [{'; '.join(xs)}] in Ok [" + "; ".join(items) + "]")
+
+    def judge(self, case, impl_res, coq_val):
+        if impl_res.get("outcome"):
+            return [Finding("impl_fault", f"implementation {impl_res['outcome']}", "vmdk:delta:" + impl_res["outcome"])]
+        if impl_res["open"] is not None:
+            return [Finding("impl_vs_spec", f"open failed on a well-formed delta chain: {impl_res['open']}", "vmdk:delta:open")]
+        fs = []
+        if impl_res["size"] != case["total"] * 512:
+            fs.append(Finding("impl_vs_spec", f"size {impl_res['size']} != {case['total'] * 512}", "vmdk:delta:size"))
+        m = core.res_of(coq_val)
+        files0 = [self._ext_file(e)[0] for e in case["layers"][0]]
+        for i, ((kind, a, b), r) in enumerate(zip(case["reqs"], impl_res["reqs"])):
+            if kind == "sectors":
+                s0, cnt, skip, want = a, b, 0, b * 512
+            else:
+                b = min(b, case["total"] * 512 - a)
+                s0 = a // 512
+                cnt = (a + b + 511) // 512 - s0
+                skip, want = a - s0 * 512, b
+            spec = self.intent(case, s0, cnt)[skip:skip + want]
+            io = outcome_of(r)
+            label = f"{kind}({a},{b})"
+            sig = f"vmdk:delta{len(case['layers'])}:{kind}"
+            if io[0] == "ok":
+                if io[1] != spec:
+                    dd = core.first_diff(io[1], spec)
+                    fs.append(Finding("impl_vs_spec", f"{label}: bytes differ from the overlay of the layers at +{dd} "
+                                      f"(sector {s0 + (dd + skip) // 512})", sig + ":bytes"))
+            elif io[0] == "exc":
+                fs.append(Finding("impl_vs_spec", f"{label}: implementation raised {io[1]} at {io[2]}", sig + f":exc:{io[1]}"))
+            else:
+                fs.append(Finding("impl_fault", f"{label}: {io[0]}", sig + ":" + io[0]))
+            if m[0] == "ok":
+                pm = core.res_of(m[1][i])
+                if pm[0] == "ok":
+                    parts = []
+                    for x in pm[1]:
+                        _, idx, seg = x
+                        seg = tuple(seg)
+                        if seg[0] == "SParent":
+                            parts.append(self.intent(case, seg[1] // 512, (seg[2] + 511) // 512, from_layer=1)[:seg[2]])
+                        elif seg[0] == "SZero":
+                            parts.append(b"\x00" * seg[1])
+                        else:
+                            parts.append(files0[idx].content(seg[1], seg[2]))
+                    mb = b"".join(parts)[skip:skip + want]
+                    if mb != spec:
+                        fs.append(Finding("model_vs_spec", f"{label}: extent model differs from the overlay intent", sig + ":mvs"))
+                    if io[0] == "ok" and io[1] != mb:
+                        fs.append(Finding("impl_vs_model", f"{label}: implementation differs from the extent model", sig + ":model"))
+                else:
+                    fs.append(Finding("model_vs_spec", f"{label}: extent model returned {pm[0]}", sig + ":mvs-err"))
+            else:
+                fs.append(Finding("model_vs_spec", f"extent model could not open the layer: {m[0]}", sig + ":mvs-open"))
+        return fs
+
+    def nontrivial(self, case, impl_res, coq_val):
+        return core.sha(core.jdump(case["reqs"]).encode() + str(case["base_salt"]).encode()) \
+            if sum(len(l) for l in case["layers"]) >= 2 else None
+
+    def dist(self, case):
+        return {"depth": len(case["layers"]), "extents_top": len(case["layers"][0])}
+
+    def describe(self, case):
+        return {"total": case["total"], "layers": [[(e["kind"], e["capacity"]) for e in l] for l in case["layers"]],
+                "reqs": case["reqs"]}
+
+
+# ----------------------------------------------------------------------------- QCOW2 backing chains
+class Qcow2Chain(ChainSuite):
+    """QCow2 over QCow2 over ... (each backing file is itself an opened QCow2 stream); same virtual size."""
+    name = "qcow2_chain"
+    fmt = "qcow2"
+    shard = 6
+    preamble = c01.Qcow2Suite.preamble + "From DH Require Import Model.Chain.\n"
+
+    def generate(self, rng, tier):
+        out = []
+        n = 200 if tier == "thorough" else 20
+        for _ in range(n):
+            depth = rng.randint(2, 4)
+            ncl_bytes = rng.randint(2, 20) * 512
+            size = ncl_bytes - rng.pick([0, 0, 77])
+            layers = []
+            for d in range(depth):
+                cb = rng.pick([9, 9, 10])
+                cs = 1 << cb
+                ncl = (size + cs - 1) // cs
+                hosts = list(range(ncl))
+                rng.shuffle(hosts)
+                cl = {}
+                mode = rng.pick(["rand", "alt", "sparse"])
+                for g in range(ncl):
+                    hold = {"rand": rng.chance(0.5), "alt": (g + d) % 2 == 0, "sparse": rng.chance(0.2)}[mode]
+                    if hold:
+                        cl[str(g)] = rng.weighted([({"t": "normal", "host": (8 + hosts[g]) * cs, "copied": True}, 5),
+                                                    ({"t": "zero_plain"}, 1)])
+                top = d < depth - 1
+                layers.append({"cluster_bits": cb, "ext": False, "datafile": False, "version": 3, "header_length": 104,
+                               "l1_size": 1, "l1_offset": cs, "rc_offset": 3 * cs, "l2tabs": {"0": 2 * cs}, "clusters": cl,
+                               "backing": ({"size": size} if top else None), "backing_name_off": 200, "size": size,
+                               "salt": rng.randrange(1 << 30), "file_size": (8 + ncl + 1) * cs, "data_size": 0})
+            reqs = []
+            for _ in range(5):
+                a = rng.randrange(0, size)
+                reqs.append([rng.pick(["raw", "bytes"]), a, rng.randint(1, min(size - a, 3000))])
+            out.append({"layers": layers, "size": size, "reqs": reqs})
+        return out
+
+    def build_files(self, case):
+        return [c01.build_files(l)[0] for l in case["layers"]]
+
+    def open_top(self, case, files, tmp):
+        from dissect.hypervisor.disk.qcow2 import QCow2
+        obj = None
+        for fh in reversed(files):
+            obj = QCow2(fh, backing_file=obj) if obj is not None else QCow2(fh)
+        return obj
+
+    def layer_terms(self, case):
+        terms = []
+        for l in case["layers"]:
+            im = c01.coq_image(l, c01.layout(l))
+            terms.append(f"(let im := {im} in {{| l_read := fun off n => qcow2_read im (S (Z.to_nat n)) off n; "
+                         f"l_src := guest_src im |}})")
+        return terms
+
+    def granule(self, case):
+        return 1
+
+    def dist(self, case):
+        return {"depth": len(case["layers"])}
+
+
+# ----------------------------------------------------------------------------- QCOW2 internal snapshots
+class Qcow2Snapshots(Suite):
+    """An image with an active L1 and one internal snapshot L1 over different cluster mappings; histories interleave reads of
+    the active disk and of the view opened with QCow2Snapshot.open(). Each view must read as its own mapping, whatever was
+    read before on the other one."""
+    name = "qcow2_snapshot"
+    shard = 6
+    preamble = c01.Qcow2Suite.preamble
+
+    def generate(self, rng, tier):
+        out = []
+        n = 120 if tier == "thorough" else 12
+        for _ in range(n):
+            cb = rng.pick([9, 9, 10, 12])
+            cs = 1 << cb
+            ncl = rng.randint(1, 24)
+            size = ncl * cs - rng.pick([0, 0, 100])
+
+            def mapping(first_host):
+                cl = {}
+                hosts = list(range(ncl))
+                rng.shuffle(hosts)
+                for g in range(ncl):
+                    t = rng.weighted([("normal", 5), ("zero_plain", 1), (None, 2)])
+                    if t == "normal":
+                        cl[str(g)] = {"t": "normal", "host": (first_host + hosts[g]) * cs, "copied": rng.chance(0.5)}
+                    elif t == "zero_plain":
+                        cl[str(g)] = {"t": "zero_plain"}
+                return cl
+            base = {"cluster_bits": cb, "ext": False, "datafile": False, "version": 3, "header_length": 104, "l1_size": 1,
+                    "rc_offset": 6 * cs, "backing": None, "size": size, "salt": rng.randrange(1 << 30)}
+            act = dict(base, l1_offset=1 * cs, l2tabs={"0": 2 * cs}, clusters=mapping(16))
+            snp = dict(base, l1_offset=3 * cs, l2tabs={"0": 4 * cs}, clusters=mapping(16 + ncl))
+            ops = []
+            opened = False
+            for _ in range(rng.randint(3, 16)):
+                if not opened and rng.chance(0.4):
+                    ops.append(["open"])
+                    opened = True
+                    continue
+                who = rng.pick(["a", "s"]) if opened else "a"
+                pos = rng.weighted([(0, 3), (rng.randrange(0, size), 4), (rng.randrange(0, ncl) * cs, 2)])
+                ln = rng.weighted([(rng.randint(1, 64), 3), (rng.randint(1, 3 * cs), 4), (-1, 1)])
+                ops.append([who, pos, ln])
+            if not opened:
+                ops.append(["open"])
+                ops.append(["s", 0, rng.randint(1, 2 * cs)])
+            out.append({"active": act, "snap": snp, "size": size, "cs": cs, "ops": ops,
+                        "file_size": (16 + 2 * ncl + 2) * cs})
+        return out
+
+    def _file(self, case):
+        la, ls = c01.layout(case["active"]), c01.layout(case["snap"])
+        cs = case["cs"]
+        chunks = dict(la["chunks"])
+        chunks[case["snap"]["l1_offset"]] = ls["chunks"][case["snap"]["l1_offset"]]
+        for off in ls["l2"]:
+            chunks[off] = ls["chunks"][off]
+        # snapshot table: one entry (40-byte header, 16 bytes of extra data, id "1", name "snap-one")
+        ent = struct.pack(">QIHHIIQII", case["snap"]["l1_offset"], 1, 1, 8, 0, 0, 0, 0, 16) + struct.pack(">QQ", 0, case["size"]) \
+            + b"1" + b"snap-one"
+        chunks[5 * cs] = ent
+        hdr = bytearray(chunks[0])
+        struct.pack_into(">I", hdr, 60, 1)
+        struct.pack_into(">Q", hdr, 64, 5 * cs)
+        chunks[0] = bytes(hdr)
+        return core.SparseFile(case["file_size"], chunks, salt=case["active"]["salt"]), la, ls
+
+    def impl(self, case):
+        from dissect.hypervisor.disk.qcow2 import QCow2
+        fh, _, _ = self._file(case)
+        q = QCow2(fh)
+        view = None
+        out = []
+        for op in case["ops"]:
+            if op[0] == "open":
+                view = call(lambda: q.snapshots[0].open())
+                out.append("opened" if not isinstance(view, dict) else view)
+                continue
+            st = q if op[0] == "a" else view
+
+            def f(st=st, op=op):
+                st.seek(op[1])
+                return st.read(op[2])
+            out.append(call(f))
+        return out
+
+    def coq_term(self, case):
+        fh, la, ls = self._file(case)
+        cs, size = case["cs"], case["size"]
+        cnt = (size + 63) // 64
+        return (f"(spec_plan (guest_src {c01.coq_image(case['active'], la)}) 64 0 {cnt}, "
+                f"spec_plan (guest_src {c01.coq_image(case['snap'], ls)}) 64 0 {cnt})")
+
+    def judge(self, case, impl_res, coq_val):
+        if isinstance(impl_res, dict):
+            return [Finding("impl_fault", f"implementation {impl_res}", "qcow2:snapshot:" + str(impl_res.get("outcome")))]
+        fh, _, _ = self._file(case)
+        _, pa, ps = coq_val
+        size = case["size"]
+        disk = {"a": core.materialise(core.plan_of(pa), file=fh)[:size], "s": core.materialise(core.plan_of(ps), file=fh)[:size]}
+        fs = []
+        for op, r in zip(case["ops"], impl_res):
+            if op[0] == "open":
+                if r != "opened":
+                    fs.append(Finding("impl_vs_spec", f"QCow2Snapshot.open() failed: {r}", "qcow2:snapshot:open"))
+                continue
+            n = size - op[1] if op[2] < 0 else min(op[2], size - op[1])
+            want = disk[op[0]][op[1]:op[1] + max(0, n)]
+            io = outcome_of(r)
+            who = "active disk" if op[0] == "a" else "snapshot view"
+            if io[0] != "ok":
+                fs.append(Finding("impl_vs_spec", f"{who} read({op[1]},{op[2]}) {io[:3]}", f"qcow2:snapshot:{op[0]}:{io[0]}"))
+            elif io[1] != want:
+                other = disk["s" if op[0] == "a" else "a"][op[1]:op[1] + max(0, n)]
+                hint = " (these are the OTHER view's bytes)" if io[1] == other else ""
+                fs.append(Finding("impl_vs_spec", f"{who} read({op[1]},{op[2]}) differs from its own mapping at "
+                                  f"+{core.first_diff(io[1], want)}{hint}", f"qcow2:snapshot:{op[0]}:bytes"))
+        return fs
+
+    def nontrivial(self, case, impl_res, coq_val):
+        whos = {op[0] for op in case["ops"]}
+        return core.sha(core.jdump(case).encode()) if {"a", "s"} <= whos else None
+
+    def dist(self, case):
+        return {"cluster_bits": case["active"]["cluster_bits"], "nops": len(case["ops"])}
+
+
+SUITES = {"qcow2_chain": Qcow2Chain(), "qcow2_snapshot": Qcow2Snapshots(), "vmdk_delta": VmdkDelta(), "vdi_chain": VdiChain(), "hds_chain": HdsChain(), "vhdx_chain": VhdxChain(), "open_layouts": OpenLayouts()}
